@@ -221,24 +221,28 @@ Definition get_slice_str (v : view) (p : list Z) (fv : fview) : res (list Z) :=
     when that slice keeps the annotation db, i.e. when the feature's map is one
     span; [Ok None] otherwise.  Also carries the ValueError of the new-style
     constructor ("cannot set offset on a SeqView with an offset"). *)
+Definition rc_if (minus : bool) (v : view) : res view :=
+  if minus then getitem_slice FSeqView v None None (Some (-1)) else Ok v.
+
+Definition pcoords (v : view) : Z * Z * Z :=
+  (parent_start v, parent_stop v, if is_reversed v then -1 else 1).
+
 Definition slice_coords (fx : fixes) (i : seqimpl) (v : view) (p : list Z) (fv : fview) : res (option (Z * Z * Z)) :=
   match fv_map fv with
   | [SSpan a b] =>
-      let strand := if fv_minus fv then -1 else 1 in
       bind (view_substr v p a b) (fun '(v', s) =>
         if fx_mapped fx then
           (* the view slice itself; rc() when the feature is reversed *)
-          let st := (if is_reversed v' then -1 else 1) * strand in
-          Ok (Some (parent_start v', parent_stop v', st))
+          bind (rc_if (fv_minus fv) v') (fun w => Ok (Some (pcoords w)))
         else
           match i with
           | OldSeq =>                                   (* fresh string, annotation_offset = map.start *)
-              Ok (Some (a, a + zlen s, strand))
+              Ok (Some (a, a + zlen s, if fv_minus fv then -1 else 1))
           | NewSeq =>
               if negb (a =? 0) && negb (offset v' =? 0) then Err E_Value
               else
                 let v'' := if a =? 0 then v' else mkV (start v') (stop v') (step v') (seq_len v') a in
-                Ok (Some (parent_start v'', parent_stop v'', (if is_reversed v'' then -1 else 1) * strand))
+                bind (rc_if (fv_minus fv) v'') (fun w => Ok (Some (pcoords w)))
           end)
   | _ => Ok None
   end.
